@@ -6,6 +6,34 @@ HERE = os.path.dirname(os.path.abspath(__file__))
 TECH = "deterministic simulation with fault injection: seeded search over schedules, fault scripts and workloads (blsim discrete-event simulator, libc clock/entropy seams), oracle = reference model / ground truth, failures minimised to a replay file"
 
 CLAIMED = {
+ "C01": dict(
+   text="Seeded search over simulated client/signer/verifier runs: request loss, duplication, late duplicates, client retries, signer crash and restart with the key reloaded from its durable encoding (8 key codecs), responses carried in 6 codecs. Invariants: signing succeeds, is byte-identical across retries/duplicates/restarts, every verifier accepts, also after one more encoding round trip of key, public key and signature. The grid key class x 18 message-length classes x scheme x group is enumerated completely in both tiers.",
+   note="The universal 'for all sk, msg' is reached by the edge-biased grid and seeded content, i.e. by generation; the simulator contributes the retry/restart/duplicate histories and the durable-key reload. Trusted: harness transport/disk.",
+   ref="DESIGN.md §4 C01"),
+ "C02": dict(
+   text="Seeded search with a Byzantine relay between signer and verifier applying one perturbation from the property's list per run (and random in-flight bit flips); the library's accept/reject decision is compared on every tuple with an independent CoreVerify (reference implementation, draft tags), and single-component changes must be rejected. Every single-bit flip of the (pk, signature, message) encodings is enumerated for sampled honest tuples.",
+   note="Trusted: bls12_381_plus curve/pairing arithmetic and hash-to-curve used by the reference (anchored to RFC 9380 known answers and to agreement with blst), my transcription of the draft tags.",
+   ref="DESIGN.md §4 C02"),
+ "C03": dict(
+   text="The reference implementation (scheme logic re-written from the draft, HKDF from a hand-written HMAC, draft tags typed by hand) runs as a peer: byte equality of KeyGen for seeds of many lengths, SkToPk, CoreSign under NUL/AUG/POP, PopProve and Aggregate for both ciphersuite families, mutual acceptance of signatures and proofs in both directions, AggregateVerify decisions equal. Seeded search over keys (incl. 1, 2, r-2, r-1), seeds, messages, aggregate shapes.",
+   note="No schedule, clock or fault influences this property; the simulator contributes the heterogeneous-peer arrangement, workload, replay and minimisation (said so in DESIGN.md §4 C03). Trusted: bls12_381_plus arithmetic/hash-to-curve (RFC 9380 vectors), RFC 5869 vector for the HKDF.",
+   ref="DESIGN.md §4 C03"),
+ "C05": dict(
+   text="Seeded search in which a relay relabels every scheme-tagged artefact (signature, share, aggregate, multi-signature, proofs of knowledge, commitment, signcryption and time-lock ciphertexts) to each other scheme (all 6 ordered pairs, both groups) and a confused signer presents signatures over pk bytes as proofs of possession and vice versa; every such case must be rejected. The finite set of tag constants the library exposes is enumerated: pairwise distinct, signature and PoP tags equal to the draft strings.",
+   note="Trusted: harness relay; the draft strings typed by hand in the reference crate.",
+   ref="DESIGN.md §4 C05"),
+ "C09": dict(
+   text="Seeded search over simulated registrations of (pk, PoP) by up to 8 parties (edge keys included) with retries, duplication and in-flight corruption; a Byzantine registrant presents every other party's proof with its own key (all ordered pairs) and perturbed proofs (-pi, pi+G, k*pi, identity, off-subgroup point, bit flips). Oracle: accepted iff pi == sk*H(pk) under the tree's own PoP tag, computed by the reference arithmetic; determinism of proofs.",
+   note="Trusted: reference arithmetic (bls12_381_plus). Schedule contributes retry determinism only; the rest is generation plus corruption faults.",
+   ref="DESIGN.md §4 C09"),
+ "C10": dict(
+   text="Seeded search over simulated prover/verifier runs with per-node wall clocks (skew up to 1 h, forward/backward jumps, freezes), network delay vs timeout, late duplicate deliveries (replay after expiry) and a Byzantine relay altering one component (u, v, challenge, message, key, label, timestamp incl. 0, +-1, 2^63, u64::MAX). Clock reference model at nanosecond granularity with a stated one-millisecond don't-care band at the timeout boundary; a timestamp ahead of the verifier's clock may be accepted or rejected but verification must never abort.",
+   note="Assumes party clocks within [1970-01-02, 2200-01-01]. Interactive-proof tamper verdicts are decided by the verification equation evaluated by the reference arithmetic under the tree's own tags (algebraically valid related tuples, e.g. u/v swapped under the key 1, are not required to fail). Known finding: MessageAugmentation with the plain message (see known_findings.json).",
+   ref="DESIGN.md §4 C10"),
+ "C20": dict(
+   text="The OS entropy device is simulated (libc getrandom seam). Each of the 12 randomized entry points is called N times (quick 256, thorough 4096) with identical arguments at a frozen simulated clock: in one call sequence, on 8 caller threads with their own device streams, across 4 process incarnations, under two device seeds, and in pairs of child processes with the seam on and with real OS entropy; every exposed ephemeral (points, masks, the ElGamal proof's recomputed commitment, commitment secret, keys, challenges, share values) must be pairwise distinct over the whole recorded history.",
+   note="Caller threads are real OS threads: the verdict is a property of the set of outputs and identical under every interleaving (blsful has no shared state to interleave); not asserted: how many bytes a call consumes. Entropy sources that are themselves broken (VM snapshot replay) are outside the premise.",
+   ref="DESIGN.md §4 C20"),
  "C08": dict(
    text="Seeded search (exploration) over simulated dealer/signer/combiner runs: loss, duplication, reordering, partitions, signer crash/restart with torn and lost writes, Byzantine signers; recombination compared byte-for-byte with the whole-key result, bounded liveness after faults stop. The sub-space 2<=t<=n<=7 x {Basic,PoP} x both groups x every subset of every size is enumerated completely in both tiers; (t,n) up to 255 is sampled.",
    note="Trusted: harness party logic/transport/disk; vsss-rs and the curve back end are code under test, not trusted. 'Fewer than t shares never yield the key' is checked as 'the library's functions do not return it on the explored subsets', not as a secrecy proof.",
